@@ -390,4 +390,365 @@ theorem inv_of_commit {s s' : Sys} (h : Inv s) (i : Nat) (w w' : Writer)
         · rw [Batch.apply_items_of_ne b _ _ (by rw [hbk]; exact hkk)]
           exact hwj.readCur v' ex' now' b' r' hpc' hv'
 
+/-! ## the system step, componentwise -/
+
+theorem Sys.step_writer (s : Sys) (i : Nat) (w : Writer) (hc : s.clients[i]? = some (.writer w)) :
+    s.step (.step i) =
+      { s with store := (wstep s.store s.clock s.nextTok i w).1,
+               clients := s.clients.set i (.writer (wstep s.store s.clock s.nextTok i w).2.1),
+               nextTok := if (wstep s.store s.clock s.nextTok i w).2.2.1 then s.nextTok + 1 else s.nextTok,
+               log := match (wstep s.store s.clock s.nextTok i w).2.2.2 with | some c => s.log ++ [c] | none => s.log } := by
+  simp only [Sys.step, hc]
+  rfl
+
+theorem Sys.step_reader (s : Sys) (i : Nat) (r : Reader) (hc : s.clients[i]? = some (.reader r)) :
+    s.step (.step i) = { s with clients := s.clients.set i (.reader (rstep s.store r)) } := by
+  simp only [Sys.step, hc]
+
+theorem Sys.step_none (s : Sys) (i : Nat) (hc : s.clients[i]? = none) : s.step (.step i) = s := by
+  simp only [Sys.step, hc]
+
+theorem lt_length_of_getElem? {α : Type} {l : List α} {i : Nat} {a : α} (h : l[i]? = some a) : i < l.length := by
+  rcases Nat.lt_or_ge i l.length with hl | hl
+  · exact hl
+  · rw [List.getElem?_eq_none hl] at h; cases h
+
+theorem getElem?_set_of_some {α : Type} {l : List α} {i : Nat} {a : α} (h : l[i]? = some a) (b : α) (j : Nat) :
+    (l.set i b)[j]? = if j = i then some b else l[j]? := by
+  have hlt := lt_length_of_getElem? h
+  rw [List.getElem?_set]
+  by_cases hji : j = i
+  · subst hji; simp [hlt]
+  · have : ¬ i = j := fun e => hji e.symm
+    simp [hji, this]
+
+/-- A writer step that is not a commit, given the computed `wstep` result. -/
+theorem inv_wstep_of {s : Sys} (h : Inv s) {i : Nat} {w : Writer} (hc : s.clients[i]? = some (.writer w))
+    {st' : RStore} {w' : Writer} {f : Bool} {cm : Option Commit}
+    (hr : wstep s.store s.clock s.nextTok i w = (st', w', f, cm))
+    (hrel : StoreRel s.store st')
+    (hlastLt : ∀ (k t : Nat), st'.lastOf k = some t → t < s.nextTok)
+    (hval : ∀ (k : Nat) (c : LockCell), st'.locks[k]? = some c → st'.lastOf k = some c.token)
+    (htok : (f = false ∧ w'.tok = w.tok) ∨ (f = true ∧ w'.tok = s.nextTok))
+    (hw : WInv st' w') : Inv (s.step (.step i)) := by
+  rw [Sys.step_writer s i w hc, hr]
+  have hnt : s.nextTok ≤ (if f = true then s.nextTok + 1 else s.nextTok) := by split <;> omega
+  refine inv_of_storeRel h i hrel hnt ?_ hval ?_
+  · intro k t ht; exact Nat.lt_of_lt_of_le (hlastLt k t ht) hnt
+  · intro j wj' hj
+    have hj' : (s.clients.set i (.writer w'))[j]? = some (.writer wj') := hj
+    rw [getElem?_set_of_some hc] at hj'
+    split at hj'
+    · rename_i hji
+      cases hj'
+      refine Or.inr ⟨hji, w, hji ▸ hc, ?_, hw⟩
+      rcases htok with ⟨hf, ht⟩ | ⟨hf, ht⟩
+      · exact Or.inl ht
+      · refine Or.inr ⟨ht, ?_⟩
+        show s.nextTok < (if f = true then s.nextTok + 1 else s.nextTok)
+        rw [hf]; simp
+    · exact Or.inl hj'
+
+/-- store untouched, token kept -/
+theorem inv_wstep_quiet {s : Sys} (h : Inv s) {i : Nat} {w : Writer} (hc : s.clients[i]? = some (.writer w))
+    {w' : Writer} {cm : Option Commit}
+    (hr : wstep s.store s.clock s.nextTok i w = (s.store, w', false, cm))
+    (htok : w'.tok = w.tok) (hw : WInv s.store w') : Inv (s.step (.step i)) :=
+  inv_wstep_of h hc hr (StoreRel.refl _) h.lastLt h.valLast (Or.inl ⟨rfl, htok⟩) hw
+
+/-- what `afterRelease` does; store untouched -/
+theorem inv_wstep_after {s : Sys} (h : Inv s) {i : Nat} {w : Writer} (hc : s.clients[i]? = some (.writer w))
+    (a : Attempt)
+    (hr : wstep s.store s.clock s.nextTok i w =
+      (s.store,
+       (match a with
+        | .finished r => (({ w with pc := .done r } : Writer), false)
+        | .retry =>
+          if w.attemptsLeft = 0 then (({ w with pc := .done (.error .lockExhausted) } : Writer), false)
+          else (({ w with pc := .setnx, tok := s.nextTok, attemptsLeft := w.attemptsLeft - 1 } : Writer), true)).1,
+       (match a with
+        | .finished r => (({ w with pc := .done r } : Writer), false)
+        | .retry =>
+          if w.attemptsLeft = 0 then (({ w with pc := .done (.error .lockExhausted) } : Writer), false)
+          else (({ w with pc := .setnx, tok := s.nextTok, attemptsLeft := w.attemptsLeft - 1 } : Writer), true)).2,
+       none)) : Inv (s.step (.step i)) := by
+  have hap := (h.winv i w hc).resAP
+  cases a with
+  | finished r =>
+    exact inv_wstep_of h hc hr (StoreRel.refl _) h.lastLt h.valLast (Or.inl ⟨rfl, rfl⟩) (WInv.of_ver_none rfl hap)
+  | retry =>
+    by_cases ha : w.attemptsLeft = 0
+    · simp only [ha, if_true] at hr
+      exact inv_wstep_of h hc hr (StoreRel.refl _) h.lastLt h.valLast (Or.inl ⟨rfl, rfl⟩) (WInv.of_ver_none rfl hap)
+    · simp only [ha, if_false] at hr
+      exact inv_wstep_of h hc hr (StoreRel.refl _) h.lastLt h.valLast (Or.inr ⟨rfl, rfl⟩) (WInv.of_ver_none rfl hap)
+
+/-! ## preservation, event by event -/
+
+/-- lease expiry, both semantics -/
+theorem inv_expire {s : Sys} (h : Inv s) (k : Nat) : Inv (s.step (.expire k)) := by
+  show Inv { s with store := s.store.lockExpire k s.dirties }
+  have hcl : ∀ (j : Nat) (wj' : Writer), s.clients[j]? = some (.writer wj') →
+      s.clients[j]? = some (.writer wj') ∨
+      (j = 0 ∧ ∃ wj : Writer, s.clients[j]? = some (.writer wj) ∧
+        (wj'.tok = wj.tok ∨ (wj'.tok = s.nextTok ∧ s.nextTok < s.nextTok)) ∧
+          WInv (s.store.lockExpire k s.dirties) wj') := fun _ _ hj => Or.inl hj
+  cases hl : s.store.locks[k]? with
+  | none => rw [RStore.lockExpire_none hl]; exact h
+  | some c =>
+    cases hd : s.dirties with
+    | true =>
+      rw [hd] at hcl
+      rw [RStore.lockExpire_some_dirty hl] at hcl ⊢
+      refine inv_of_storeRel h 0 (StoreRel.touch _ _ _ _) (Nat.le_refl _) ?_ ?_ hcl
+      · intro k' t ht
+        have ht' : (s.store.touchLock k none).lastOf k' = some t := ht
+        rw [RStore.lastOf_touchLock] at ht'
+        split at ht'
+        · cases ht'
+        · exact h.lastLt k' t ht'
+      · intro k' c' hk'
+        have hk'' : (s.store.locks.erase k)[k']? = some c' := hk'
+        show (s.store.touchLock k none).lastOf k' = _
+        rw [ExtTreeMap.getElem?_erase] at hk''
+        rw [RStore.lastOf_touchLock]
+        by_cases hkk : k = k'
+        · simp [hkk] at hk''
+        · simp only [Nat.compare_eq_eq, hkk, if_false] at hk'' ⊢
+          exact h.valLast k' c' hk''
+    | false =>
+      rw [hd] at hcl
+      rw [RStore.lockExpire_some_clean hl] at hcl ⊢
+      refine inv_of_storeRel h 0 (StoreRel.locksOnly _ _) (Nat.le_refl _) ?_ ?_ hcl
+      · exact h.lastLt
+      · intro k' c' hk'
+        have hk'' : (s.store.locks.erase k)[k']? = some c' := hk'
+        show s.store.lastOf k' = _
+        rw [ExtTreeMap.getElem?_erase] at hk''
+        by_cases hkk : k = k'
+        · simp [hkk] at hk''
+        · simp only [Nat.compare_eq_eq, hkk, if_false] at hk''
+          exact h.valLast k' c' hk''
+
+theorem inv_tick {s : Sys} (h : Inv s) (d : Nat) : Inv (s.step (.tick d)) :=
+  ⟨h.tokLt, h.tokInj, h.lastLt, h.valLast, h.keyed, h.winv⟩
+
+theorem inv_rstep {s : Sys} (h : Inv s) (i : Nat) (r : Reader) (hc : s.clients[i]? = some (.reader r)) :
+    Inv (s.step (.step i)) := by
+  rw [Sys.step_reader s i r hc]
+  have hcl : ∀ (j : Nat) (w : Writer), (s.clients.set i (.reader (rstep s.store r)))[j]? = some (.writer w) →
+      s.clients[j]? = some (.writer w) := by
+    intro j w hj
+    rw [getElem?_set_of_some hc] at hj
+    split at hj
+    · cases hj
+    · exact hj
+  exact ⟨fun j w hj => h.tokLt j w (hcl j w hj),
+    fun j k wj wk hj hk => h.tokInj j k wj wk (hcl j wj hj) (hcl k wk hk),
+    h.lastLt, h.valLast, h.keyed, fun j w hj => h.winv j w (hcl j w hj)⟩
+
+/-- one storage command of a writer -/
+theorem inv_wstep {s : Sys} (h : Inv s) (i : Nat) (w : Writer) (hc : s.clients[i]? = some (.writer w)) :
+    Inv (s.step (.step i)) := by
+  have hw := h.winv i w hc
+  have hap := hw.resAP
+  cases hpc : w.pc with
+  | setnx =>
+    cases hl : s.store.locks[w.key]? with
+    | some c =>
+      apply inv_wstep_after h hc .retry
+      simp only [wstep, hpc]
+      rw [RStore.lockSetNX_some (show s.store.locks[w.op.svr.addr.key]? = some c from hl)]
+      rfl
+    | none =>
+      have hr : wstep s.store s.clock s.nextTok i w =
+          ({ s.store.touchLock w.key (some w.tok) with locks := s.store.locks.insert w.key ⟨w.tok, true⟩ },
+           { w with pc := .watch }, false, none) := by
+        simp only [wstep, hpc]
+        rw [RStore.lockSetNX_none (show s.store.locks[w.op.svr.addr.key]? = none from hl)]
+        rfl
+      refine inv_wstep_of h hc hr (StoreRel.touch _ _ _ _) ?_ ?_ (Or.inl ⟨rfl, rfl⟩) (WInv.of_ver_none rfl hap)
+      · intro k' t ht
+        have ht' : (s.store.touchLock w.key (some w.tok)).lastOf k' = some t := ht
+        rw [RStore.lastOf_touchLock] at ht'
+        split at ht'
+        · cases ht'; exact h.tokLt i w hc
+        · exact h.lastLt k' t ht'
+      · intro k' c' hk'
+        have hk'' : (s.store.locks.insert w.key ⟨w.tok, true⟩)[k']? = some c' := hk'
+        show (s.store.touchLock w.key (some w.tok)).lastOf k' = _
+        rw [ExtTreeMap.getElem?_insert] at hk''
+        rw [RStore.lastOf_touchLock]
+        by_cases hkk : w.key = k'
+        · simp only [Nat.compare_eq_eq, hkk, if_true] at hk'' ⊢
+          cases hk''; rfl
+        · simp only [Nat.compare_eq_eq, hkk, if_false] at hk'' ⊢
+          exact h.valLast k' c' hk''
+  | watch =>
+    have hr : wstep s.store s.clock s.nextTok i w =
+        (s.store, { w with pc := .ownGet (s.store.verOf w.key) }, false, none) := by
+      simp only [wstep, hpc]; rfl
+    refine inv_wstep_quiet h hc hr rfl ⟨?_, ?_, ?_, ?_, ?_, hap⟩
+    · intro v hv; cases hv; exact Nat.le_refl _
+    · intro hcl; cases hcl
+    · intro v ex now b r hx; cases hx
+    · intro v ex now b r hx; cases hx
+    · intro v ex now b r hx; cases hx
+  | ownGet v =>
+    have hvle := hw.verLe v (by rw [hpc]; rfl)
+    cases hl : s.store.locks[w.key]? with
+    | none =>
+      have hr : wstep s.store s.clock s.nextTok i w =
+          (s.store, { w with pc := .unwatch (.finished (.error .lockLost)) }, false, none) := by
+        simp only [wstep, hpc]
+        rw [show s.store.locks[w.op.svr.addr.key]? = none from hl]
+      exact inv_wstep_quiet h hc hr rfl (WInv.of_ver_none rfl hap)
+    | some cell =>
+      by_cases ht : cell.token = w.tok
+      · have hr : wstep s.store s.clock s.nextTok i w = (s.store, { w with pc := .hget v }, false, none) := by
+          simp only [wstep, hpc]
+          rw [show s.store.locks[w.op.svr.addr.key]? = some cell from hl]
+          simp only [ht, if_true]
+        refine inv_wstep_quiet h hc hr rfl ⟨?_, ?_, ?_, ?_, ?_, hap⟩
+        · intro v' hv'; cases hv'; exact hvle
+        · intro _; show s.store.lastOf w.key = some w.tok
+          rw [h.valLast _ _ hl, ht]
+        · intro v' ex now b r hx; cases hx
+        · intro v' ex now b r hx; cases hx
+        · intro v' ex now b r hx; cases hx
+      · have hr : wstep s.store s.clock s.nextTok i w = (s.store, { w with pc := .unwatch .retry }, false, none) := by
+          simp only [wstep, hpc]
+          rw [show s.store.locks[w.op.svr.addr.key]? = some cell from hl]
+          simp only [ht, if_false]
+        exact inv_wstep_quiet h hc hr rfl (WInv.of_ver_none rfl hap)
+  | hget v =>
+    have hvle := hw.verLe v (by rw [hpc]; rfl)
+    cases hd : decide w.op (s.store.items[w.key]?) s.clock with
+    | inl r =>
+      have hr : wstep s.store s.clock s.nextTok i w =
+          (s.store, { w with pc := .unwatch (.finished r) }, false, none) := by
+        simp only [wstep, hpc]
+        rw [show decide w.op (s.store.items[w.op.svr.addr.key]?) s.clock = .inl r from hd]
+      exact inv_wstep_quiet h hc hr rfl (WInv.of_ver_none rfl hap)
+    | inr br =>
+      obtain ⟨b, r⟩ := br
+      have hr : wstep s.store s.clock s.nextTok i w =
+          (s.store, { w with pc := .exec v (s.store.items[w.key]?) s.clock b r }, false, none) := by
+        simp only [wstep, hpc]
+        rw [show decide w.op (s.store.items[w.op.svr.addr.key]?) s.clock = .inr (b, r) from hd]
+        rfl
+      refine inv_wstep_quiet h hc hr rfl ⟨?_, ?_, ?_, ?_, ?_, hap⟩
+      · intro v' hv'; cases hv'; exact hvle
+      · intro hcl
+        apply hw.cleanOwn
+        show w.pc.own? = _
+        rw [hpc]; exact hcl
+      · intro v' ex now b' r' hx _; cases hx; rfl
+      · intro v' ex now b' r' hx; cases hx; exact hd
+      · intro v' ex now b' r' hx; cases hx
+        exact decide_key hap (fun e he => h.keyed _ e he) hd
+  | exec v ex now b r =>
+    by_cases hv : s.store.verOf w.key = v
+    · have hr : wstep s.store s.clock s.nextTok i w =
+          (b.apply s.store, { w with pc := .unwatch (.finished r), committed := true }, false,
+            some ⟨i, s.store.items[w.key]?, b⟩) := by
+        simp only [wstep, hpc]
+        rw [if_pos (show s.store.verOf w.op.svr.addr.key = v from hv)]
+        rfl
+      refine inv_of_commit h i w { w with pc := .unwatch (.finished r), committed := true } v ex now b r hc hpc hv.symm
+        ?_ ?_ rfl rfl rfl ?_
+      · rw [Sys.step_writer s i w hc, hr]
+      · rw [Sys.step_writer s i w hc, hr]; rfl
+      · intro j
+        rw [Sys.step_writer s i w hc, hr]
+        exact getElem?_set_of_some hc _ j
+    · have hr : wstep s.store s.clock s.nextTok i w = (s.store, { w with pc := .unwatch .retry }, false, none) := by
+        simp only [wstep, hpc]
+        rw [if_neg (show ¬ s.store.verOf w.op.svr.addr.key = v from hv)]
+      exact inv_wstep_quiet h hc hr rfl (WInv.of_ver_none rfl hap)
+  | unwatch a =>
+    have hr : wstep s.store s.clock s.nextTok i w = (s.store, { w with pc := .relWatch a }, false, none) := by
+      simp only [wstep, hpc]
+    exact inv_wstep_quiet h hc hr rfl (WInv.of_ver_none rfl hap)
+  | relWatch a =>
+    have hr : wstep s.store s.clock s.nextTok i w = (s.store, { w with pc := .relGet a }, false, none) := by
+      simp only [wstep, hpc]
+    exact inv_wstep_quiet h hc hr rfl (WInv.of_ver_none rfl hap)
+  | relGet a =>
+    cases hl : s.store.locks[w.key]? with
+    | none =>
+      have hr : wstep s.store s.clock s.nextTok i w = (s.store, { w with pc := .relUnwatch a }, false, none) := by
+        simp only [wstep, hpc]
+        rw [show s.store.locks[w.op.svr.addr.key]? = none from hl]
+      exact inv_wstep_quiet h hc hr rfl (WInv.of_ver_none rfl hap)
+    | some cell =>
+      by_cases ht : cell.token = w.tok
+      · have hr : wstep s.store s.clock s.nextTok i w = (s.store, { w with pc := .relDel a }, false, none) := by
+          simp only [wstep, hpc]
+          rw [show s.store.locks[w.op.svr.addr.key]? = some cell from hl]
+          simp only [ht, if_true]
+        exact inv_wstep_quiet h hc hr rfl (WInv.of_ver_none rfl hap)
+      · have hr : wstep s.store s.clock s.nextTok i w = (s.store, { w with pc := .relUnwatch a }, false, none) := by
+          simp only [wstep, hpc]
+          rw [show s.store.locks[w.op.svr.addr.key]? = some cell from hl]
+          simp only [ht, if_false]
+        exact inv_wstep_quiet h hc hr rfl (WInv.of_ver_none rfl hap)
+  | relDel a =>
+    cases hl : s.store.locks[w.key]? with
+    | none =>
+      have hr : wstep s.store s.clock s.nextTok i w = (s.store, { w with pc := .relUnwatch a }, false, none) := by
+        simp only [wstep, hpc]
+        rw [RStore.lockDel_none (show s.store.locks[w.op.svr.addr.key]? = none from hl)]
+      exact inv_wstep_quiet h hc hr rfl (WInv.of_ver_none rfl hap)
+    | some cell =>
+      have hr : wstep s.store s.clock s.nextTok i w =
+          ({ s.store.touchLock w.key none with locks := s.store.locks.erase w.key },
+           { w with pc := .relUnwatch a }, false, none) := by
+        simp only [wstep, hpc]
+        rw [RStore.lockDel_some (show s.store.locks[w.op.svr.addr.key]? = some cell from hl)]
+        rfl
+      refine inv_wstep_of h hc hr (StoreRel.touch _ _ _ _) ?_ ?_ (Or.inl ⟨rfl, rfl⟩) (WInv.of_ver_none rfl hap)
+      · intro k' t ht
+        have ht' : (s.store.touchLock w.key none).lastOf k' = some t := ht
+        rw [RStore.lastOf_touchLock] at ht'
+        split at ht'
+        · cases ht'
+        · exact h.lastLt k' t ht'
+      · intro k' c' hk'
+        have hk'' : (s.store.locks.erase w.key)[k']? = some c' := hk'
+        show (s.store.touchLock w.key none).lastOf k' = _
+        rw [ExtTreeMap.getElem?_erase] at hk''
+        rw [RStore.lastOf_touchLock]
+        by_cases hkk : w.key = k'
+        · simp [hkk] at hk''
+        · simp only [Nat.compare_eq_eq, hkk, if_false] at hk'' ⊢
+          exact h.valLast k' c' hk''
+  | relUnwatch a =>
+    apply inv_wstep_after h hc a
+    simp only [wstep, hpc]
+    rfl
+  | done r =>
+    have hr : wstep s.store s.clock s.nextTok i w = (s.store, w, false, none) := by
+      simp only [wstep, hpc]
+    exact inv_wstep_quiet h hc hr rfl hw
+
+/-- **The invariant is inductive**: every event — a storage command of any client, a lease expiry
+under either expiry semantics, a clock tick — preserves it. -/
+theorem inv_step {s : Sys} (h : Inv s) (e : Ev) : Inv (s.step e) := by
+  cases e with
+  | expire k => exact inv_expire h k
+  | tick d => exact inv_tick h d
+  | step i =>
+    cases hc : s.clients[i]? with
+    | none => rw [Sys.step_none s i hc]; exact h
+    | some c =>
+      cases c with
+      | writer w => exact inv_wstep h i w hc
+      | reader r => exact inv_rstep h i r hc
+
+theorem inv_run {s : Sys} (h : Inv s) (es : List Ev) : Inv (s.run es) := by
+  induction es generalizing s with
+  | nil => exact h
+  | cons e es ih => exact ih (inv_step h e)
+
 end Swat4
